@@ -1,7 +1,7 @@
 (* The memo-simulation (MemoSim.v) for every parser of the grammar model: one lemma per grammar
    function, in dependency order, mostly by the tactic [stac] (the analogue of [wtac]); then the
    knot over the fuel-indexed grammar at two independent fuel levels. *)
-From GoldV Require Import Base Tokens Lexer AstKinds Tree Strings PComb Grammar ParserWF GrammarWF MemoSim.
+From GoldV Require Import Base Tokens Lexer AstKinds Tree Strings PComb Grammar MemoObs ParserWF GrammarWF MemoSim.
 From Coq Require Import Lia.
 Local Open Scope nat_scope.
 
@@ -260,7 +260,7 @@ Section InBody.
   Proof.
     intros Hr HR HA Hg. rewrite !parse_method_call_eq.
     change (method_call_body (g_expr (gram g0))) with (ubody CACHE_METHOD_CALL g0).
-    apply Sim_memo_ok_only; auto.
+    apply Sim_memo; auto.
     - reflexivity.
     - apply W_method_call_body; exact HR.
     - intros m g Hm Hmg. change (ubody CACHE_METHOD_CALL g) with (method_call_body (g_expr (gram g))).
